@@ -235,7 +235,7 @@ pub proof fn lemma_published_inside(src: AnalyzedSource, n: int, i: int)
 }
 
 //~assume tokens tile the text (tiling half of C06; the nom lexer is out of reach) and every node / error range names existing tokens (`range_in`; established by the nom parser and by Identifier::to_error under `range.end > 0`)
-//~not_decided whether the handlers pass the right token slice to to_text_range (async handler bodies: goto, hover, references)
+//~not_decided (here) whether the handlers pass the right token slice to to_text_range: decided for go-to, hover, references and signature help in units `goto`, `hover`, `refdispatch`, `sighelp`
 pub proof fn witness_ast(t: Token) {
     let ts = seq![t];
     let r: Range<usize> = 0usize..1usize;
